@@ -95,6 +95,17 @@ def regenerate(repo, outdir):
     _write(os.path.join(outdir, 'Gen_zmatrix_py.v'),
            (HEADER % 'src/fqe/fci_graph.py').replace('Import GenBase.', 'Import GenBase Addr GenLoops.') + text)
     res['Gen_zmatrix_py'] = {'leaves': status, 'ok': not text == ''}
+    # --- fqe/lib/fci_graph.c: the loop nest of calculate_Z_matrix (accelerated path): assignments and table reads
+    src = open(os.path.join(repo, 'src/fqe/lib/fci_graph.c')).read()
+    try:
+        text = c2coq.translate_c_table_loops(src, 'calculate_Z_matrix')
+        status = {'calculate_Z_matrix': 'loops'}
+    except c2coq.Unsupported as e:
+        text = ''
+        status = {'calculate_Z_matrix': 'unsupported: %s' % e}
+    _write(os.path.join(outdir, 'Gen_zmatrix_c.v'),
+           (HEADER % 'src/fqe/lib/fci_graph.c').replace('Import GenBase.', 'Import GenBase Addr GenLoops.') + text)
+    res['Gen_zmatrix_c'] = {'leaves': status, 'ok': not text == ''}
     return res
 
 
